@@ -22,7 +22,7 @@ RULE = ("full product key x plaintext length x byte pattern x method x decryptin
 ASSUMPTIONS = [
     "mc/ref/aes.py (FIPS-197 / SP 800-38A self-tested) is the standard AES-256-CBC/PKCS7",
     "IV quality is checked as freshness (pairwise distinct over the run), not as statistical randomness",
-    "block-aligned truncations of AES values and lenient base64 are not demanded to be rejected",
+    "block-aligned truncations of AES values must behave as under the reference PKCS7 check (rejected unless the padding happens to be well formed); lenient base64 is not judged",
 ]
 
 
@@ -76,6 +76,11 @@ def jobs(tier):
 
 def _keyfile(ctx, key, name="k.key"):
     from cincoconfig import KeyFile
+    if name.startswith("~/"):        # a home-relative name: the object is given the unexpanded spelling
+        path = os.path.join(core.home_dir(), name[2:])
+        with open(path, "wb") as fh:
+            fh.write(key)
+        return KeyFile(name), path
     path = os.path.join(ctx.tmp, name)
     with open(path, "wb") as fh:
         fh.write(key)
@@ -288,7 +293,7 @@ def _roundtrip(job, ctx):
         if only and only != [tag]:
             continue
         okeys = [k for n, k in sorted(allkeys.items()) if k != key][:2]
-        kfs, spath = _keyfile(ctx, key, "%s.key" % tag)
+        kfs, spath = _keyfile(ctx, key, ("~/c08-%s.key" if not failed_first else "%s.key") % tag)
         p = patterns(40)["ramp"]
         prev = None
         if failed_first:
@@ -337,8 +342,11 @@ def _malformed(job, ctx):
     kf, path = _keyfile(ctx, key)
     only = job.get("only")
     lengths = [0, 1, 15, 16, 17, 31, 32, 33] if job["tier"] == "quick" else [0, 1, 5, 15, 16, 17, 31, 32, 33, 47, 48, 64]
-    for n in lengths:
-        p = patterns(n)["ramp"]
+    # plaintexts whose block ends look like (inconsistent) padding, so that block-aligned truncations separate a
+    # standard PKCS7 check from a lax one
+    padlike = [(b"A" * 14 + b"\x03\x02") * 3, (b"B" * 12 + b"\x01\x02\x03\x04") * 2 + b"tail", b"C" * 15 + b"\x10" + b"D" * 15 + b"\x05" + b"x"]
+    for n in lengths + ["pad0", "pad1", "pad2"]:
+        p = patterns(n)["ramp"] if isinstance(n, int) else padlike[int(n[3:])]
         try:
             with kf as c:
                 val = c.encrypt(p, method="aes").ciphertext
@@ -364,6 +372,17 @@ def _malformed(job, ctx):
                     still = outer.decrypt(SecureValue("aes", val)) == p
                 except Exception as exc:  # noqa
                     still = exc
+            if not must:
+                # block aligned: the outcome must be the one of the standard algorithm (reference AES-CBC + PKCS7), whatever it is
+                try:
+                    ref = ("ok", RA.cbc_decrypt(key, data[:16], data[16:]))
+                except Exception:  # noqa
+                    ref = ("raise", None)
+                if ref[0] != got[0] or (ref[0] == "ok" and ref[1] != got[1]):
+                    ctx.violation("C08|aes-decrypt|%s-aligned|differs-from-standard" % what,
+                                  "AES value of %d bytes (%s of a %d-byte value): the standard algorithm %s, the library %s"
+                                  % (len(data), what, len(val), "returns %r" % (ref[1][:12],) if ref[0] == "ok" else "rejects it (bad padding)",
+                                     "returns %r" % (got[1][:12],) if got[0] == "ok" else "raises %r" % (got[1],)), _case(job, [n, what, i]), size=len(data))
             if still is not True:
                 ctx.violation("C08|aes-decrypt|outer-session-broken", "after an inner session failed on a malformed value, the still-open outer session gives %r for a valid one" % (still,),
                               _case(job, [n, what, i]), size=len(data))
